@@ -70,7 +70,24 @@ func (s *Sim) Judge(stranded []string) []Finding {
 			}
 		case "CSelTimer":
 			facts[e.A].lastSelTimer = i
+		case "CTimerGo":
+			// "re-sent every retry interval": a timer branch that found nothing delivered retransmits
+			if j := nextOf(s.Trace, i, e.A); j < 0 || s.Trace[j].K != "CSend" {
+				add("C25", "timer-branch-without-retransmission", "call %d: the retry timer fired, nothing had been delivered when the timer branch polled (trace index %d), yet no retransmission followed", e.A, i)
+			}
 		case "CSelAck", "CSelCtx", "CClosedAcked", "CClosedCtx", "CClosedUnacked", "CTimerAcked", "CTimerCtx":
+			// leaving the retry loop "acknowledged" / "context done" needs the environment to have delivered
+			// the ack / completed a handler or cancelled the caller
+			switch e.K {
+			case "CSelAck", "CClosedAcked", "CTimerAcked":
+				if facts[e.A].ackIdx < 0 {
+					add("C25", "left-loop-without-ack", "call %d stopped retransmitting as acknowledged (trace index %d) although no NotifyAcks carrying its msg id had been delivered", e.A, i)
+				}
+			case "CSelCtx", "CClosedCtx", "CTimerCtx":
+				if facts[e.A].rclosedIdx < 0 && !cancelledBefore(s.Trace, i, e.A) {
+					add("C25", "left-loop-without-cause", "call %d stopped retransmitting on a done context (trace index %d) although no handler had completed and the caller had not cancelled", e.A, i)
+				}
+			}
 			facts[e.A].leftLoop = i
 			if e.K == "CClosedUnacked" {
 				facts[e.A].unackedPoll = i
@@ -127,6 +144,13 @@ func (s *Sim) Judge(stranded []string) []Finding {
 		}
 		if !returned {
 			continue
+		}
+		closeCalled := s.nCloser > 0 || s.CloseCalled2
+		switch {
+		case ret == RCtx && !c.ucancel:
+			add("C24", "error-without-cause:ctx", "call %d returned the context error although its context was never cancelled", c.idx)
+		case (ret == RClosedRetryable || ret == RClosedAcked || ret == RRejected) && !closeCalled:
+			add("C24", "error-without-cause:close", "call %d returned %s although neither ForceClose nor Close was called", c.idx, RetName[ret])
 		}
 		switch ret {
 		case ROther:
@@ -187,6 +211,9 @@ func (s *Sim) Judge(stranded []string) []Finding {
 		if rp != rt {
 			add("C26", "classification-functions-disagree", "pool says %v, telegram says %v for %v", rp, rt, err)
 		}
+		if ret == RClosedRetryable && (len(writes) > 0 || c.claimedIdx >= 0) {
+			add("C26", "result-claimed-but-retryable", "call %d (msg id %d): a result/error handler had claimed the call (Output writes: %d) and Do waited for it, yet Do returned the retryable engine-closed error: pool/telegram resend a request whose answer has been received", c.idx, c.plan.ID, len(writes))
+		}
 		if ret == RClosedRetryable {
 			if f.ackIdx >= 0 && f.leftLoop >= 0 && f.ackIdx < f.leftLoop {
 				add("C26", "acked-but-retryable", "call %d: ack delivered at trace index %d before the call left the retry loop at %d, yet Do returned the retryable engine-closed error", c.idx, f.ackIdx, f.leftLoop)
@@ -219,4 +246,23 @@ func lateClass(ret int) string {
 	default:
 		return "lookup-error-return-invoke"
 	}
+}
+
+// nextOf returns the index of the next event of caller c after i (-1 if none).
+func nextOf(tr []Ev, i, c int) int {
+	for j := i + 1; j < len(tr); j++ {
+		if tr[j].K[0] == 'C' && tr[j].A == c {
+			return j
+		}
+	}
+	return -1
+}
+
+func cancelledBefore(tr []Ev, i, c int) bool {
+	for j := 0; j < i; j++ {
+		if tr[j].K == "XCancel" && tr[j].A == c {
+			return true
+		}
+	}
+	return false
 }
